@@ -2,6 +2,7 @@ package props
 
 import (
 	"go/token"
+	"go/types"
 	"sort"
 	"strings"
 
@@ -381,6 +382,79 @@ func c13(r *core.Run) {
 					if m, pos := less(core.Result(ret, 0)); !m || !pos {
 						o.Fail(p.InstrPos(ret), "sort comparator is not keys[i] < keys[j] (ring would not be ascending)")
 					}
+				}
+			}
+		}
+		// the same through sort.Sort / sort.Stable: the key slice converted to an in-package sort.Interface
+		// whose Less is recv[i] < recv[j], Len is len(recv) and Swap exchanges recv[i] and recv[j]
+		for _, f := range p.PkgFuncs(hashPkg) {
+			for _, c := range core.Calls(f, core.CallTo("sort.Sort", "sort.Stable")) {
+				mi, ok := core.Forward(core.Args(c)[0]).(*ssa.MakeInterface)
+				if !ok || !core.DependsOn(mi.X, core.FieldLoad("ConsistentHash.keys")) {
+					continue
+				}
+				meth := map[string]*ssa.Function{}
+				for _, g := range p.PkgFuncs(hashPkg) {
+					if rcv := g.Signature.Recv(); rcv != nil && types.Identical(rcv.Type(), mi.X.Type()) {
+						meth[g.Name()] = g
+					}
+				}
+				less, ln, sw := meth["Less"], meth["Len"], meth["Swap"]
+				if less == nil || ln == nil || sw == nil || len(less.Params) != 3 || len(sw.Params) != 3 || len(ln.Params) != 1 {
+					o.Unres("%s: sort.Interface methods of %s not found in the package", p.InstrPos(c), mi.X.Type())
+					continue
+				}
+				n++
+				sorts++
+				elemAt := func(g *ssa.Function, k int) func(ssa.Value) bool {
+					return func(v ssa.Value) bool {
+						u, ok := v.(*ssa.UnOp)
+						if !ok || u.Op != token.MUL {
+							return false
+						}
+						ia, ok := u.X.(*ssa.IndexAddr)
+						return ok && ia.X == ssa.Value(g.Params[0]) && ia.Index == ssa.Value(g.Params[k])
+					}
+				}
+				lt := core.Cmp(token.LSS, elemAt(less, 1), elemAt(less, 2))
+				for _, ret := range core.Returns(less) {
+					if m, pos := lt(core.Result(ret, 0)); !m || !pos {
+						o.Fail(p.InstrPos(ret), "sort comparator %s is not keys[i] < keys[j] (ring would not be ascending)", core.FuncName(less))
+					}
+				}
+				for _, ret := range core.Returns(ln) {
+					lc, ok := core.Result(ret, 0).(*ssa.Call)
+					if b, isB := func() (*ssa.Builtin, bool) {
+						if !ok {
+							return nil, false
+						}
+						b, isB := lc.Call.Value.(*ssa.Builtin)
+						return b, isB
+					}(); !isB || b.Name() != "len" || lc.Call.Args[0] != ssa.Value(ln.Params[0]) {
+						o.Fail(p.InstrPos(ret), "%s does not return len of the slice being sorted", core.FuncName(ln))
+					}
+				}
+				swapped := 0
+				for _, b := range sw.Blocks {
+					for _, in := range b.Instrs {
+						st, ok := in.(*ssa.Store)
+						if !ok {
+							continue
+						}
+						ia, ok := st.Addr.(*ssa.IndexAddr)
+						if !ok || ia.X != ssa.Value(sw.Params[0]) {
+							continue
+						}
+						switch {
+						case ia.Index == ssa.Value(sw.Params[1]) && elemAt(sw, 2)(st.Val), ia.Index == ssa.Value(sw.Params[2]) && elemAt(sw, 1)(st.Val):
+							swapped++
+						default:
+							o.Fail(p.InstrPos(st), "%s stores %s: not an exchange of keys[i] and keys[j]", core.FuncName(sw), core.Describe(st.Val))
+						}
+					}
+				}
+				if swapped != 2 {
+					o.Fail(p.Pos(sw.Pos()), "%s does not exchange keys[i] and keys[j]", core.FuncName(sw))
 				}
 			}
 		}
